@@ -329,12 +329,82 @@ func ruleProgress(c *Ctx) *RuleResult {
 				r.ok(key, pos, fname(fn), "a range loop over a slice: bounded by its length")
 				continue
 			}
+			// a back edge that hands the header a value deciding its own exit test
+			// (an error that is non-nil by construction where the loop runs
+			// "while err == nil", a constant false flag) does not continue the loop
+			exiting := func(p *ssa.BasicBlock) bool {
+				ifi := blockIf(h)
+				if ifi == nil {
+					return false
+				}
+				pi := -1
+				for i, pb := range h.Preds {
+					if pb == p {
+						pi = i
+					}
+				}
+				if pi < 0 {
+					return false
+				}
+				edgeVal := func(v ssa.Value) ssa.Value {
+					if ph, ok := v.(*ssa.Phi); ok && ph.Block() == h {
+						return ph.Edges[pi]
+					}
+					return nil
+				}
+				taken := -1
+				cond := ifi.Cond
+				neg := false
+				if u, ok := cond.(*ssa.UnOp); ok && u.Op == token.NOT {
+					cond, neg = u.X, true
+				}
+				switch cv := cond.(type) {
+				case *ssa.BinOp:
+					if (cv.Op == token.EQL || cv.Op == token.NEQ) && isNilConst(cv.Y) {
+						if e := edgeVal(cv.X); e != nil && neverNilError(c, e) {
+							taken = 1 // "== nil" is false
+							if cv.Op == token.NEQ {
+								taken = 0
+							}
+						}
+					}
+				case *ssa.Phi:
+					if e := edgeVal(cv); e != nil {
+						if bv, ok := constBool(e); ok {
+							taken = 1
+							if bv {
+								taken = 0
+							}
+						}
+					}
+				}
+				if taken < 0 {
+					return false
+				}
+				if neg {
+					taken = 1 - taken
+				}
+				// the taken successor must leave the loop for good
+				t := h.Succs[taken]
+				if !h.Dominates(t) {
+					return true
+				}
+				for bb := range reachableFrom(t, nil) {
+					if bb == h {
+						return false
+					}
+				}
+				return true
+			}
 			cyc := false
 			seen := map[*ssa.BasicBlock]bool{}
 			var walk func(b *ssa.BasicBlock)
 			walk = func(b *ssa.BasicBlock) {
 				for _, s := range b.Succs {
 					if s == h {
+						if exiting(b) {
+							continue
+						}
 						cyc = true
 						return
 					}
